@@ -449,20 +449,26 @@ fn case_swapinfo(r: &mut Rng) -> String {
 }
 
 fn case_drewards(r: &mut Rng) -> String {
-    let index = |r: &mut Rng| match r.below(10) {
+    let index = |r: &mut Rng| match r.below(20) {
         0 => 0,
-        1..=4 => r.below128(1000 * E18),
-        5..=6 => r.log10(0, 30),
-        _ => gen_rate(r),
+        1..=9 => r.below128(10 * E18),
+        10..=12 => r.below128(1000 * E18),
+        13..=14 => r.log10(0, 30),
+        15..=17 => gen_rate(r),
+        _ => r.below(1_000_000) as u128,
     };
     let a = index(r);
     let b = index(r);
-    let (global, user) = match r.below(10) {
-        0 => (a, a),
-        1 => (a.min(b), a.max(b)), // user index above global: underflow
+    let (global, user) = match r.below(20) {
+        0..=1 => (a, a),
+        2 => (a.min(b), a.max(b)), // user index above global: underflow
         _ => (a.max(b), a.min(b)),
     };
-    let balance = gen_amount(r);
+    let balance = match r.below(20) {
+        0..=8 => r.below(1_000_000_000) as u128,
+        9..=14 => r.below128(E18 + 1),
+        _ => gen_amount(r),
+    };
     format!("{} {} {} => {}", global, user, balance, k_drewards(global, user, balance))
 }
 
@@ -488,9 +494,91 @@ pub fn stream<W: Write>(name: &str, seed: u64, count: u64, w: &mut W) -> Result<
         h = h.rotate_left(7) ^ (b as u64);
     }
     let mut r = Rng::new(h);
+    // PROTOCOL.md section 6: lines are `ARGS => RESULT` (no kernel name).  KRP_KERNEL_PREFIX=1
+    // prints `NAME ARGS => RESULT` instead, should the other side expect the name as first token.
+    let prefix = std::env::var("KRP_KERNEL_PREFIX").map(|v| v == "1").unwrap_or(false);
     for _ in 0..count {
         let line = case(name, &mut r).unwrap();
-        writeln!(w, "{}", line).map_err(|e| e.to_string())?;
+        if prefix {
+            writeln!(w, "{} {}", name, line).map_err(|e| e.to_string())?;
+        } else {
+            writeln!(w, "{}", line).map_err(|e| e.to_string())?;
+        }
     }
     Ok(())
+}
+
+// ---------------------------------------------------------------------------------------------
+// Evaluation of externally supplied cases (sweeps, replays)
+// ---------------------------------------------------------------------------------------------
+
+fn parse_list(t: &str) -> Result<Vec<u128>, String> {
+    let inner = t
+        .strip_prefix('[')
+        .and_then(|x| x.strip_suffix(']'))
+        .ok_or_else(|| format!("bad list `{}`", t))?;
+    if inner.is_empty() {
+        return Ok(vec![]);
+    }
+    inner.split(',').map(crate::ops::parse_u128).collect()
+}
+
+/// Evaluate one case given as `ARGS` (anything from ` =>` on is ignored); returns `ARGS => RESULT`.
+pub fn eval_line(name: &str, line: &str) -> Result<String, String> {
+    let args = match line.find("=>") {
+        Some(i) => &line[..i],
+        None => line,
+    };
+    let mut toks: Vec<&str> = args.split_whitespace().collect();
+    if toks.first().copied() == Some(name) {
+        toks.remove(0);
+    }
+    let n = |i: usize| -> Result<u128, String> {
+        crate::ops::parse_u128(toks.get(i).copied().ok_or("missing argument")?)
+    };
+    let res = match name {
+        "deleg" | "undeleg" => {
+            if toks.len() != 2 {
+                return Err("expected: AMOUNT [d0,..]".to_string());
+            }
+            let ds = parse_list(toks[1])?;
+            if name == "deleg" {
+                k_deleg(n(0)?, &ds)
+            } else {
+                k_undeleg(n(0)?, &ds)
+            }
+        }
+        "ddiv" => {
+            if toks.len() != 2 {
+                return Err("expected: A RATE".to_string());
+            }
+            k_ddiv(n(0)?, n(1)?)
+        }
+        "nwr" => {
+            if toks.len() != 5 {
+                return Err("expected: AMOUNT RATE TOTAL SLASHED NEG".to_string());
+            }
+            let total = Uint256::from_str(toks[2]).map_err(|e| e.to_string())?;
+            let neg = match toks[4] {
+                "0" => false,
+                "1" => true,
+                _ => return Err("NEG must be 0|1".to_string()),
+            };
+            k_nwr(n(0)?, n(1)?, total, n(3)?, neg)
+        }
+        "swapinfo" => {
+            if toks.len() != 6 {
+                return Err("expected: STB BB RST RB X_B2ST X_ST2B".to_string());
+            }
+            k_swapinfo(n(0)?, n(1)?, n(2)?, n(3)?, n(4)?, n(5)?)
+        }
+        "drewards" => {
+            if toks.len() != 3 {
+                return Err("expected: GLOBAL USER BALANCE".to_string());
+            }
+            k_drewards(n(0)?, n(1)?, n(2)?)
+        }
+        _ => return Err(format!("unknown kernel `{}`", name)),
+    };
+    Ok(format!("{} => {}", toks.join(" "), res))
 }
